@@ -124,14 +124,26 @@ def advance (m : Mode) (st : St) (d : Nat) : St :=
   let st' := (st.jobs.filter (fun j => decide (j.due ≤ t))).foldl (fire m) st
   { st' with now := t, jobs := st.jobs.filter (fun j => !decide (j.due ≤ t)) }
 
+/-- `UpdatePoliciesData(…, unmanageImmediately = true)` (the fail-safe reverts `RevertToDiagnosisFree` /
+    `RevertToLastLoaded`): the same update, but what left the configuration is un-managed at once — the entries
+    first, then manage-all — instead of by a sleeping goroutine. -/
+def reloadNow (m : Mode) (st : St) (new : Req) : St :=
+  let st1 := reload m st new
+  if !reloadOK st new then st1
+  else
+    let st2 := ((st1.jobs.drop st.jobs.length).reverse).foldl (fire m) st1
+    { st2 with jobs := st.jobs }
+
 inductive Ev where
   | reload (r : Req)
+  | reloadNow (r : Req)
   | advance (d : Nat)
   | fail (puts dels : Nat)        -- the admin server will refuse the next PUTs / DELETEs
 deriving Repr
 
 def step (m : Mode) (st : St) : Ev → St
   | .reload r => reload m st r
+  | .reloadNow r => reloadNow m st r
   | .advance d => advance m st d
   | .fail p d => { st with failPut := p, failDel := d }
 
